@@ -45,7 +45,7 @@ GSpec == GInit /\ [][GNext]_gvars
 (* most MaxOdd components that differ from the plain form.  One initial     *)
 (* state per case; the driver renders the case as URL text.                 *)
 CONSTANT MaxOdd
-UIs    == {"none", "user", "userpw", "enc", "crlf", "emptypw"}
+UIs    == {"none", "user", "userpw", "enc", "crlf", "emptypw", "long"}
 HostFs == {"plain", "upper", "idn", "ip4", "ip6", "ip6long"}
 PortFs == {"none", "default", "other", "padded", "xdef"}
 PathFs == {"p", "empty", "slash", "space", "crlf", "delims", "uni", "dots", "pct", "bslash", "semi"}
